@@ -463,6 +463,21 @@ def deep_eq(a, b):
     if isinstance(a, (list, tuple)) and isinstance(b, (list, tuple)):
         if len(a) != len(b):
             return z3.BoolVal(False)
+        if len(a) == 2 and isinstance(a[0], str) and a[0] == 'M' and b[0] == 'M' \
+                and isinstance(a[1], (list, tuple)) and isinstance(b[1], (list, tuple)):
+            # a mapping value: equality of dicts does not depend on insertion order
+            x, y = list(a[1]), list(b[1])
+            if len(x) != len(y):
+                return z3.BoolVal(False)
+            if len(x) <= 1:
+                return deep_eq(x, y)
+            if len(x) > 5:
+                return deep_eq(x, y)
+            import itertools
+            alts = []
+            for perm in itertools.permutations(range(len(y))):
+                alts.append(zand([deep_eq(x[i], y[j]) for i, j in enumerate(perm)]))
+            return zor(alts)
         return z3.And([deep_eq(p, q) for p, q in zip(a, b)]) if a else z3.BoolVal(True)
     if isinstance(a, dict) and isinstance(b, dict):
         # keys must be concrete here
